@@ -1,7 +1,7 @@
 """C07 registry: industrial components."""
 from __future__ import annotations
 
-from props.c07_core import Backend, Drv, Entity, Event, P, R
+from props.c07_core import Backend, Drv, Entity, Event, P, PI, R
 
 from happysimulator.components.industrial import (AppointmentScheduler, BalkingQueue, BatchProcessor,
                                                   BreakdownScheduler, ConditionalRouter, ConveyorBelt,
@@ -177,8 +177,9 @@ class PerishableInventoryDrv(Drv):
 
     def build(self, cfg):
         self.waste = Backend("waste", 0.0, None)
-        self.inv = PerishableInventory("blood-bank", initial_stock=2, shelf_life_s=P(1.25),
-                                       spoilage_check_interval_s=P(0.5), reorder_point=1, order_quantity=2,
+        shelf, sweep = PI(1.25, 0.5)
+        self.inv = PerishableInventory("blood-bank", initial_stock=2, shelf_life_s=shelf,
+                                       spoilage_check_interval_s=sweep, reorder_point=1, order_quantity=2,
                                        lead_time=cfg.L, downstream=self.h.out, waste_target=self.waste)
         return [self.waste, self.inv]
 
